@@ -1,0 +1,23 @@
+//go:build verif
+
+package common
+
+// Contracts checked by /verif (gvc). This file contains comments only and is compiled only with -tags verif.
+//
+// Fixed-width encodings used in hash pre-images (property C13), as abstract byte strings. be64enc / big32enc are
+// uninterpreted; ASSUMED (the bodies are two lines over encoding/binary and geth's LeftPadBytes): Uint64ToBytes is the 8-byte
+// big-endian image, BigIntToBytes the 32-byte left-padded big-endian magnitude (nil counts as zero). Both are injective on
+// their domains (uint64; 0 <= v < 2^256) - used only in the paper step on pre-image injectivity.
+//@ spec be64enc(x int) int
+//@ spec big32enc(v int) int
+
+//@ func Uint64ToBytes(height)
+//@   trusted
+//@   ensures len(result) == 8 && fresh(result) && bytesval(result) == be64enc(height)
+//@   modifies nothing
+
+//@ func BigIntToBytes(int)
+//@   trusted
+//@   ensures fresh(result) && bytesval(result) == big32enc(ite(int == nil, 0, val(int)))
+//@   ensures int == nil || (0 <= val(int) && val(int) < pow2(256)) ==> len(result) == 32
+//@   modifies nothing
